@@ -442,6 +442,8 @@ def collector_cases(chk, drv):
     Ps = [p for p in proc_grids(chk.n(6, 8)) if p[0] != p[1] or p == (1, 1)]
     for it in range(chk.n(8, 40)):
         P = rng.choice(Ps)
+        if it % 4 == 0:
+            P = (1, 1)                                # one process: the reduction may take a different path there
         npts = npts_for(rng, P)
         eta = rand_grids(rng, npts)
         saveStep = rng.randint(1, 4)
@@ -451,6 +453,9 @@ def collector_cases(chk, drv):
         Fs = [rand_field(rng, npts, False) for _ in steps]
         Phis = [rand_field(rng, npts[:3], True) for _ in steps]
         order = rng.choice(['rank', 'reverse', 'random'])
+        n_reduce = rng.choice([1, 1, 2, 3])          # reduce() more than once over the same window (live monitoring, then the final one)
+        if it % 4 in (0, 1):
+            n_reduce = 3 - it % 4
 
         def body():
             comm = MPI.COMM_WORLD
@@ -464,12 +469,13 @@ def collector_cases(chk, drv):
                 phi.getAllData()[:] = lu.expected_block(Ph, phi.getLayout('v_parallel_2d'))
                 dc.collect(f, phi, k * dt)
             times = dc.diagnostics[0, :].copy()
-            dc.reduce()
+            for _ in range(n_reduce):
+                dc.reduce()
             return {'rank': comm.Get_rank(), 'times': times.tolist(),
                     'rows': [np.array(x, dtype=float).tolist() for x in (dc.l2PhiResult, dc.l2GridResult, dc.l1Result, dc.nPartResult,
                                                                          dc.min_val, dc.max_val, dc.KE_val)]}
         res = lu.run_ranks(int(np.prod(P)), body, policy=rng.choice(['inorder', 'reverse', 'random']), seed=it, reduce_order=order)
-        case = {'P': list(P), 'npts': npts, 'saveStep': saveStep, 'dt': dt, 'steps': steps, 'reduce_order': order}
+        case = {'P': list(P), 'npts': npts, 'saveStep': saveStep, 'dt': dt, 'steps': steps, 'reduce_order': order, 'reduce_calls': n_reduce}
         if not res.ok:
             chk.fail('C17:collector-crash', 'DiagnosticCollector raised: ' + str(res.first_error())[:200], case)
             continue
